@@ -318,7 +318,18 @@ def single_var_guard(view, is_x, spec_thresholds, at_of=None):
     Returns (tracked {block: (cond, orient, K)}, thresholds)."""
     tracked = {}
     ths = set(spec_thresholds)
+    view._unresolved_cmp = []
     for b, c, _ in switch_conds(view):
+        if c.kind == "call" and c.callee.endswith("::is_zero") and c.term["args"]:
+            # x.is_zero()  ==  (x == 0)
+            at = view.at_term(c.block)
+            oa = view.origins_of_operand(c.term["args"][0], at=at)
+            if is_x(oa):
+                from .mir import Cond
+                cc = Cond("cmp", op="!=" if c.neg else "==", a=c.term["args"][0], b=None, ty="is_zero", block=c.block, site=c.site)
+                tracked[b] = (cc, "fwd", Fraction(0))
+                ths.add(Fraction(0))
+            continue
         if c.kind != "cmp":
             continue
         at = view.at_term(c.site[1]) if c.site[0] == "c" else (c.site[1], c.site[2])
@@ -332,6 +343,11 @@ def single_var_guard(view, is_x, spec_thresholds, at_of=None):
         elif is_x(ob) and ka is not None:
             tracked[b] = (c, "rev", ka)
             ths.add(ka)
+        elif is_x(oa) or is_x(ob):
+            other = ob if is_x(oa) else oa
+            if other and all(o.kind in ("item", "const") for o in other):
+                # compared with a constant the extractor could not evaluate: fail closed
+                view._unresolved_cmp.append((b, sorted(map(repr, other))))
     return tracked, ths
 
 
@@ -418,3 +434,140 @@ def call_shape(view, os_, callee_rx, arg_preds):
             if not p(view.origins_of_operand(t["args"][i], at=view.at_term(b))):
                 return False
     return True
+
+
+# ---------------------------------------------------------------------------------------
+# G4: forward flow of a created value to message sinks
+
+SINK_RX = re.compile(r"^cosmwasm_std::Response::add_(message|messages|submessage|submessages)$")
+
+
+def _op_local(o):
+    if o["k"] in ("copy", "move"):
+        return o["pl"]["l"]
+    return None
+
+
+def _ref_target(view, local):
+    """If `local` is (only) defined as `&mut X` / `&X`, return X's local; follows one reborrow."""
+    ds = view.defs().get(local, [])
+    outs = set()
+    for d in ds:
+        if d[0] == "s" and d[3]["rv"]["r"] == "ref":
+            pl = d[3]["rv"]["pl"]
+            if "*" in pl["p"]:
+                # reborrow (&mut *x): look through
+                t = _ref_target(view, pl["l"])
+                outs |= t if t else {pl["l"]}
+            else:
+                outs.add(pl["l"])
+    return outs
+
+
+def _alias_roots(view, local, depth=0, seen=None):
+    """Locals that `local` (a pointer/reference) may point into: follows ref / cast / copy defs backwards."""
+    seen = seen if seen is not None else set()
+    if local in seen or depth > 6:
+        return set()
+    seen.add(local)
+    out = set()
+    for d in view.defs().get(local, []):
+        if d[0] != "s":
+            continue
+        rv = d[3]["rv"]
+        src = None
+        if rv["r"] == "ref":
+            src = rv["pl"]["l"]
+        elif rv["r"] in ("cast", "use") and rv["op"]["k"] in ("copy", "move"):
+            src = rv["op"]["pl"]["l"]
+        if src is not None:
+            out.add(src)
+            out |= _alias_roots(view, src, depth + 1, seen)
+    return out
+
+
+def forward_flow(view, seed_locals):
+    """Flow-insensitive forward closure of value flow from the seed locals.
+    Returns (tainted locals, [(block, term) sinks reached], reaches_return(bool))."""
+    tainted = set(seed_locals)
+    sinks = {}
+    changed = True
+    while changed:
+        changed = False
+        for b, i, s in view.iter_stmts():
+            rv = s["rv"]
+            used = []
+            k = rv["r"]
+            if k in ("use", "cast", "repeat"):
+                used = [_op_local(rv["op"])]
+            elif k == "ref":
+                used = [rv["pl"]["l"]]
+            elif k == "agg":
+                used = [_op_local(o) for o in rv["ops"]]
+            elif k == "bin":
+                used = [_op_local(rv["a"]), _op_local(rv["b"])]
+            elif k == "un":
+                used = [_op_local(rv["a"])]
+            if any(u in tainted for u in used if u is not None):
+                l = s["lhs"]["l"]
+                # writing through a pointer: taint what it points to as well
+                targets = {l}
+                if "*" in s["lhs"]["p"]:
+                    targets |= _alias_roots(view, l)
+                for t in targets:
+                    if t not in tainted:
+                        tainted.add(t)
+                        changed = True
+        for b, t in view.iter_calls():
+            args = [_op_local(a) for a in t["args"]]
+            if not any(a in tainted for a in args if a is not None):
+                continue
+            n = mname(t)
+            if SINK_RX.match(n):
+                sinks[b] = t
+            new = {t["dest"]["l"]}
+            # a tainted value passed next to a `&mut X` argument may be stored into X
+            for a in args:
+                if a is None or a in tainted:
+                    continue
+                ty = view.local_ty(a)
+                if ty.startswith("&mut "):
+                    new |= _alias_roots(view, a)
+            for x in new:
+                if x not in tainted:
+                    tainted.add(x)
+                    changed = True
+    return tainted, sorted(sinks.items()), 0 in tainted
+
+
+MSG_CREATE_ADT = re.compile(r"^cosmwasm_std::(WasmMsg|BankMsg|SubMsg)$")
+MSG_CREATE_CALL = re.compile(
+    r"^(white_whale_std::pool_network::asset::Asset::(into_msg|into_burn_msg|into_submsg)"
+    r"|cosmwasm_std::(wasm_execute|wasm_instantiate)"
+    r"|cosmwasm_std::SubMsg::(new|reply_on_success|reply_on_error|reply_always)"
+    r"|.*::(mint_lp_token_msg|burn_lp_token_msg|burn_lp_asset_msg|validate_funds_sent|migrate_\w+_msg|create_lp_token))$")
+
+
+_MSG_TY = re.compile(r"cosmwasm_std::(CosmosMsg|SubMsg|WasmMsg|BankMsg)")
+
+
+def message_creations(view, model=None):
+    """[(block, idx|None, dest local, description)] -- message values created in this function:
+    message aggregates, library constructors, and calls to workspace functions whose return type
+    carries messages (but is not a Response)."""
+    out = []
+    for b, i, s in view.iter_stmts():
+        rv = s["rv"]
+        if rv["r"] == "agg" and "adt" in rv and MSG_CREATE_ADT.match(rv["adt"]):
+            out.append((b, i, s["lhs"]["l"], "%s::%s" % (rv["adt"], rv["variant"])))
+    for b, t in view.iter_calls():
+        n = mname(t)
+        if MSG_CREATE_CALL.match(n):
+            out.append((b, None, t["dest"]["l"], n))
+            continue
+        if model is not None:
+            c = term_callee(t)
+            f = model.fnsrc.get(c)
+            if f is not None and _MSG_TY.search(f["ret"]) and "Response" not in f["ret"]:
+                out.append((b, None, t["dest"]["l"], n))
+    return out
